@@ -656,7 +656,7 @@ class Engine:
         # `weak_count` is `weak - 1`: an integer switch on it is a switch on the counter
         shifted = d[0] == "bin" and d[1] in ("Sub", "SubUnchecked") and is_const(d[3]) and counter_read(d[2]) is not None
         # an integer switch on what an iterator consumer computed (`match it.max() { Some(0) => .. }`, `match it.sum() { 0 => .. }`)
-        agg = d[1][1] if (d[0] == "field" and d[1][0] == "variant") else d
+        agg = d[1][1] if (d[0] == "field" and d[1][0] == "variant") else (d[1] if d[0] == "field" and d[1][0] == "call" else d)
         if agg[0] == "call" and agg[2] in ("core::iter::Iterator::max", "core::iter::Iterator::min", "core::iter::Iterator::sum", "core::iter::Iterator::fold", "core::iter::Iterator::count"):
             if v == "otherwise":
                 for lv in listed:
@@ -1138,6 +1138,10 @@ class Engine:
                 # uninit placeholder in the idiom -- is in the field)
                 bp2 = box_part(args[1])
                 A("moveout", box=bp2[0], field=bp2[1], how="swap", res=mk_deref(args[0]), put=mk_deref(args[0]))
+                return evs, False
+            if bp is not None and d == "core::mem::swap" and len(args) == 2 and box_part(args[1]) is None and bp[1] in ("value", "links"):
+                # `mem::swap(&mut (*b).links, &mut local)`: the same with the arguments the other way round
+                A("moveout", box=bp[0], field=bp[1], how="swap", res=mk_deref(args[1]), put=mk_deref(args[1]))
                 return evs, False
             if bp is not None:
                 if bp[1] in ("value", "links"):
